@@ -20,7 +20,14 @@ func mkConf(v hv.Val) cluster_table_conf.SubClusterBackend {
 		p := hv.AsList(e)
 		id, w := int(hv.AsInt(p[0])), int(hv.AsInt(p[1]))
 		name := fmt.Sprintf("b%d", id)
+		// IPv4, IPv6 literal and host name backends (the AddrInfo key of a conf entry must match the backend's)
 		addr := fmt.Sprintf("10.0.%d.%d", id/256, id%256)
+		switch id % 3 {
+		case 1:
+			addr = fmt.Sprintf("fd00::%x", id+1)
+		case 2:
+			addr = fmt.Sprintf("h-%d.example", id)
+		}
 		port := 8000 + id
 		conf = append(conf, &cluster_table_conf.BackendConf{Name: &name, Addr: &addr, Port: &port, Weight: &w})
 	}
